@@ -95,7 +95,19 @@ fn base_cfg(prop: &str, world: WorldKind, colls: u8, oracles: u32, r: &mut Rng) 
     let key_lo = *r.pick(&[0, 0, -5, 1000, -(1 << 20), i32::MAX - (1 << 21)]);
     let t0 = *r.pick(&[0, 0, 0, 5, 1000, 1 << 30]);
     let (seg_ty, seg_lo, seg_hi) = if world == WorldKind::Seg { draw_seg_domain(r) } else { (0, 0, 31) };
-    Cfg { prop: prop.to_string(), world, colls, oracles, cap, key_lo, universe, seg_ty, seg_lo, seg_hi, t0, sweep_mode: if matches!(world, WorldKind::Map | WorldKind::Set) && r.chance(1, 3) { 1 } else { 0 } }
+    let sweep_mode = if matches!(world, WorldKind::Map | WorldKind::Set) && r.chance(1, 3) { 1 } else { 0 };
+    // a third of the expiring-key runs use the narrow instantiation (8-bit clock)
+    // ... and a quarter of the ordered map / set runs the plain one (MapTree<i32, u32>,
+    // SetTree<i32, i32>: small uninstrumented types, so not for the callback-panic check)
+    let key_ty = match world {
+        WorldKind::Key => r.chance(1, 3) as u8,
+        WorldKind::Map | WorldKind::Set => (r.chance(1, 4) && oracles & O_TORN == 0) as u8,
+        WorldKind::Seg => 0,
+    };
+    // the plain map packs (key offset, version) into its 32-bit value for universes up to 1024
+    // keys; over larger ones the value is the (unique) version alone
+    let t0 = if key_ty == 1 { *r.pick(&[0, 0, 0, 5, 100, 250]) } else { t0 };
+    Cfg { prop: prop.to_string(), world, colls, oracles, cap, key_lo, universe, seg_ty, seg_lo, seg_hi, t0, sweep_mode, key_ty }
 }
 
 fn draw_len(r: &mut Rng, thorough: bool) -> usize {
@@ -139,6 +151,8 @@ pub fn draw_plan(prop: &str, index: u64, r: &mut Rng, thorough: bool) -> RunPlan
                 c.universe = (2 * n as i32 + 8).max(16);
                 c.key_lo = 0;
                 c.colls = C_TREE;
+                c.key_ty = 0;
+                c.t0 = c.t0.min(1 << 30);
                 bulk = Some((n, r.below(6) as u8, r.chance(1, 3)));
                 len = n + 2;
             }
@@ -222,6 +236,7 @@ pub fn draw_plan(prop: &str, index: u64, r: &mut Rng, thorough: bool) -> RunPlan
                 c.colls = C_TREE;
             }
             bulk = Some((n, order, churn));
+            c.key_ty = 0;
             len = n + 2;
             c
         }
@@ -251,6 +266,29 @@ pub fn draw_plan(prop: &str, index: u64, r: &mut Rng, thorough: bool) -> RunPlan
         cfg.cap = *r.pick(&[0usize, 8, 1000]);
         ord_bulk = Some((n, pat));
         len = 20 + r.below(10) as usize;
+    }
+    // a capacity hint of millions of slots (2^23 + 9; thorough also 2^24 + 1), small
+    // uninstrumented types, a short history with a clear in it
+    if (index % 100_000) / 4 == 1 && cfg.world != WorldKind::Seg && !cfg.has(O_TORN) && !cfg.has(O_CAP) && bulk.is_none() && ord_bulk.is_none() {
+        cfg.key_ty = 1;
+        cfg.cap = if thorough && r.chance(1, 2) { (1 << 24) + 1 } else { (1 << 23) + 9 };
+        cfg.universe = cfg.universe.min(64);
+        if cfg.world == WorldKind::Key {
+            cfg.t0 = cfg.t0.min(250);
+        }
+        len = 10 + r.below(6) as usize;
+    }
+    // thorough tier only: a giant build of the plain instantiation (2^25 + 7 keys ascending or
+    // descending: a root-to-leaf path of 48 entries, beyond any "46 = 1.44 * 32" or "32" bound)
+    if thorough && matches!(cfg.world, WorldKind::Map | WorldKind::Set) && cfg.colls == C_TREE && !cfg.has(O_TORN) && (index % 1_000_000) / 3 == 166_692 {
+        let n: i32 = (1 << 25) + 7;
+        cfg.key_ty = 1;
+        cfg.key_lo = 0;
+        cfg.universe = n + 16;
+        cfg.cap = 8;
+        cfg.sweep_mode = 1;
+        ord_bulk = Some((n, r.below(2) as u8));
+        len = 14 + r.below(6) as usize;
     }
     RunPlan { cfg, len, bulk, ord_bulk }
 }
